@@ -255,11 +255,11 @@ PROPS["C17"] = {
     "level": "exploration",
     "quick_runs": 500, "quick_budget_s": 150, "thorough_budget_s": 600,
     "rule": "one run = one world (1-10 upstream rules from: catch-all, nested prefixes /api/ and /api/v2/, sibling /apix/, exact path, base path, four rewrite rules with capture "
-            "groups incl. a longer overlapping pattern, a group swap and a target with a query of its own, a static upstream; pass-host-header per rule; raw-path proxying on/off; four FakeUpstream hosts) + a real login "
+            "groups incl. a longer overlapping pattern, a group swap and a target with a query of its own, a static upstream, two file:// upstreams (prefix and rewrite) over a small directory tree with a marker file outside it; pass-host-header per rule; raw-path proxying on/off; four FakeUpstream hosts) + a real login "
             "+ 40-79 authenticated requests: 24 prefixes (10 of them with an encoded slash or letter right at a prefix boundary) x 0-3 segments from an alphabet with %2F, %2e, %20, +, ;, %-encoded and raw UTF-8, %3F, %25 x 14 queries (two re-using the rule's parameter names) x 9 methods x 0-5 "
             "headers (repeated, lower-case, unusual names, empty values, hop-by-hop) x bodies 0 B - 1 MiB fixed or chunked with seeded chunk sizes; the upstream answers with a seeded "
             "status (14 codes), headers (Set-Cookie x2, Location, repeated fields, WWW-Authenticate) and body up to 70 kB, or is faulted (refuse / reset / hang, 8%), in 12% preceded by 103 Early Hints; three paths that percent-decode to the ping / ready paths of the pre-auth chain; the real "
-            "http.Transport writes to a net.Pipe and a real http.Server parses it; oracle: exactly the upstream named by an independent longest-prefix / longest-pattern model, "
+            "http.Transport writes to a net.Pipe and a real http.Server parses it; oracle: exactly the upstream named by an independent longest-prefix / longest-pattern model (file upstreams: the named file byte for byte, 20 traversal spellings never yield the outside file), "
             "request-target byte-equal (rewrite rules: path per rule, query compared as parsed values), method, body hash, Host, every end-to-end header modulo list combination, no "
             "undocumented additions; response status, headers and body hash relayed; faults => 502; non-trivial = at least one request was proxied; distinct = rule set + event hash",
     "level_text": "seeded search over upstream rule sets x request / response shapes over the real transport, with upstream faults",
